@@ -174,6 +174,10 @@ def run(ctx):
                 P0 = build.zero_hp(l, walk.fill(l, pat, rng, cfgdb))
                 yield ("c03", {"_k": "rt:%d:%s:%s" % (li, pat, P0.hex()[:48]), "lay": l, "P0": P0.hex(), "only": None,
                                "alias": _c04.alias_names(ctx.defs, l["cls"], l["id"])})
+            if any(e["k"] == "f" and e["t"][:1] == "R" for e in l["lay"]):
+                for rep in range(3):
+                    P0 = build.zero_hp(l, walk.fill(l, "fint", rng, cfgdb))
+                    yield ("c03", {"_k": "fint:%d:%d:%s" % (li, rep, P0.hex()[:48]), "lay": l, "P0": P0.hex(), "only": None, "asint": 1})
             # (ii) random subset: drop ~half of the non-structural attributes
             P0 = build.zero_hp(l, walk.fill(l, "rand", rng, cfgdb))
             keep = set(f["n"] for f in l["fixes"]) | set(disc_names(l))
